@@ -245,11 +245,11 @@ pub fn generate(seed: u64, class: &str) -> Scenario {
     }
     let nthreads = if pool { 3 + r.below(2) } else if deep { 5 } else if hot || shared { 4 } else if crowd { 20 } else if bigsort { 3 } else if manytexts { 2 } else { 2 + r.below(3) };
     let mut pool_texts: Vec<String> = (0..3).map(|_| gen_text(&mut r, &base, false)).collect();
-    // one of the pooled texts carries a literal of a few hundred bytes: every compile makes
+    // one of the pooled texts carries a literal of about 330 bytes: every compile makes
     // (or shares) it and every finished operation drops it, on several threads at once
     pool_texts[2] = format!(
         "length(`[{}]`) || s",
-        (0..40).map(|i| format!("\"member-{:03}\"", i)).collect::<Vec<_>>().join(", ")
+        (0..24).map(|i| format!("\"member-{:03}\"", i)).collect::<Vec<_>>().join(", ")
     );
     let mut threads = vec![];
     for t in 0..nthreads {
